@@ -116,7 +116,10 @@ Record lreq := {
   l_hdrs : list (string * string);    (* header lines in order: name as sent (any casing), value; no Host line *)
   l_body : string;
   l_peer : string;                    (* address of the directly connected client *)
-  l_pack : packing                    (* Envoy only: which CheckRequest field carries the body *)
+  l_pack : packing;                   (* Envoy only: which CheckRequest field carries the body *)
+  l_qpath : bool                      (* Envoy only: true = the documented shape of AttributeContext.HttpRequest (path = request
+                                         target INCLUDING the query string, query always empty); false = path and query in
+                                         separate fields, as heimdall's own gRPC tests build the request *)
 }.
 
 Definition scheme_of (L : lreq) : string := if l_tls L then "https" else "http".
@@ -156,8 +159,9 @@ Record ereq := {
 }.
 
 Definition mk_envoy (L : lreq) : ereq :=
-  {| e_method := l_method L; e_scheme := scheme_of L; e_host := l_host L; e_path := l_rawpath L;
-     e_query := l_query L; e_hdrs := envoy_wire_hdrs L;
+  {| e_method := l_method L; e_scheme := scheme_of L; e_host := l_host L;
+     e_path := if l_qpath L then l_rawpath L ++ (if nonempty (l_query L) then "?" ++ l_query L else "") else l_rawpath L;
+     e_query := if l_qpath L then "" else l_query L; e_hdrs := envoy_wire_hdrs L;
      e_body := match l_pack L with PackRaw => "" | _ => l_body L end;
      e_rawbody := match l_pack L with PackBody => "" | _ => l_body L end;
      e_xff := [l_peer L] |}.
@@ -196,31 +200,51 @@ Record fixes := {
   fx_F4 : bool;   (* fix: ae6db4f (fixes/C13-F4.diff): decoded Path and RawPath in the Envoy context *)
   fx_F6 : bool;   (* fix: 06faa19 (fixes/C13-F6.diff): grpcv3 Header("Host") gives the request host *)
   fx_F7 : bool;   (* fix: 19923cd (fixes/C13-F7.diff): grpcv3 Body() of an empty body is "" *)
-  fx_F9 : bool    (* candidate fixes/C13-F9.diff: grpcv3 falls back to the string field [body] when [raw_body] is empty *)
+  fx_F9 : bool;   (* candidate fixes/C13-F9.diff: grpcv3 falls back to the string field [body] when [raw_body] is empty *)
+  fx_F11 : bool   (* candidate fixes/C13-F11.diff: grpcv3 splits the request target at the first "?" *)
 }.
 
 Definition pinned : fixes :=
-  {| fx_F1 := false; fx_F2 := false; fx_F3 := false; fx_F4 := false; fx_F6 := false; fx_F7 := false; fx_F9 := false |}.
+  {| fx_F1 := false; fx_F2 := false; fx_F3 := false; fx_F4 := false; fx_F6 := false; fx_F7 := false; fx_F9 := false; fx_F11 := false |}.
 Definition all_fixed : fixes :=
-  {| fx_F1 := true; fx_F2 := true; fx_F3 := true; fx_F4 := true; fx_F6 := true; fx_F7 := true; fx_F9 := true |}.
+  {| fx_F1 := true; fx_F2 := true; fx_F3 := true; fx_F4 := true; fx_F6 := true; fx_F7 := true; fx_F9 := true; fx_F11 := true |}.
 Definition set_F1 (b : bool) (f : fixes) : fixes :=
-  {| fx_F1 := b; fx_F2 := fx_F2 f; fx_F3 := fx_F3 f; fx_F4 := fx_F4 f; fx_F6 := fx_F6 f; fx_F7 := fx_F7 f; fx_F9 := fx_F9 f |}.
+  {| fx_F1 := b; fx_F2 := fx_F2 f; fx_F3 := fx_F3 f; fx_F4 := fx_F4 f; fx_F6 := fx_F6 f; fx_F7 := fx_F7 f; fx_F9 := fx_F9 f; fx_F11 := fx_F11 f |}.
 Definition set_F2 (b : bool) (f : fixes) : fixes :=
-  {| fx_F1 := fx_F1 f; fx_F2 := b; fx_F3 := fx_F3 f; fx_F4 := fx_F4 f; fx_F6 := fx_F6 f; fx_F7 := fx_F7 f; fx_F9 := fx_F9 f |}.
+  {| fx_F1 := fx_F1 f; fx_F2 := b; fx_F3 := fx_F3 f; fx_F4 := fx_F4 f; fx_F6 := fx_F6 f; fx_F7 := fx_F7 f; fx_F9 := fx_F9 f; fx_F11 := fx_F11 f |}.
 Definition set_F3 (b : bool) (f : fixes) : fixes :=
-  {| fx_F1 := fx_F1 f; fx_F2 := fx_F2 f; fx_F3 := b; fx_F4 := fx_F4 f; fx_F6 := fx_F6 f; fx_F7 := fx_F7 f; fx_F9 := fx_F9 f |}.
+  {| fx_F1 := fx_F1 f; fx_F2 := fx_F2 f; fx_F3 := b; fx_F4 := fx_F4 f; fx_F6 := fx_F6 f; fx_F7 := fx_F7 f; fx_F9 := fx_F9 f; fx_F11 := fx_F11 f |}.
 Definition set_F4 (b : bool) (f : fixes) : fixes :=
-  {| fx_F1 := fx_F1 f; fx_F2 := fx_F2 f; fx_F3 := fx_F3 f; fx_F4 := b; fx_F6 := fx_F6 f; fx_F7 := fx_F7 f; fx_F9 := fx_F9 f |}.
+  {| fx_F1 := fx_F1 f; fx_F2 := fx_F2 f; fx_F3 := fx_F3 f; fx_F4 := b; fx_F6 := fx_F6 f; fx_F7 := fx_F7 f; fx_F9 := fx_F9 f; fx_F11 := fx_F11 f |}.
 Definition set_F6 (b : bool) (f : fixes) : fixes :=
-  {| fx_F1 := fx_F1 f; fx_F2 := fx_F2 f; fx_F3 := fx_F3 f; fx_F4 := fx_F4 f; fx_F6 := b; fx_F7 := fx_F7 f; fx_F9 := fx_F9 f |}.
+  {| fx_F1 := fx_F1 f; fx_F2 := fx_F2 f; fx_F3 := fx_F3 f; fx_F4 := fx_F4 f; fx_F6 := b; fx_F7 := fx_F7 f; fx_F9 := fx_F9 f; fx_F11 := fx_F11 f |}.
 Definition set_F7 (b : bool) (f : fixes) : fixes :=
-  {| fx_F1 := fx_F1 f; fx_F2 := fx_F2 f; fx_F3 := fx_F3 f; fx_F4 := fx_F4 f; fx_F6 := fx_F6 f; fx_F7 := b; fx_F9 := fx_F9 f |}.
+  {| fx_F1 := fx_F1 f; fx_F2 := fx_F2 f; fx_F3 := fx_F3 f; fx_F4 := fx_F4 f; fx_F6 := fx_F6 f; fx_F7 := b; fx_F9 := fx_F9 f; fx_F11 := fx_F11 f |}.
 Definition set_F9 (b : bool) (f : fixes) : fixes :=
-  {| fx_F1 := fx_F1 f; fx_F2 := fx_F2 f; fx_F3 := fx_F3 f; fx_F4 := fx_F4 f; fx_F6 := fx_F6 f; fx_F7 := fx_F7 f; fx_F9 := b |}.
+  {| fx_F1 := fx_F1 f; fx_F2 := fx_F2 f; fx_F3 := fx_F3 f; fx_F4 := fx_F4 f; fx_F6 := fx_F6 f; fx_F7 := fx_F7 f; fx_F9 := b; fx_F11 := fx_F11 f |}.
+Definition set_F11 (b : bool) (f : fixes) : fixes :=
+  {| fx_F1 := fx_F1 f; fx_F2 := fx_F2 f; fx_F3 := fx_F3 f; fx_F4 := fx_F4 f; fx_F6 := fx_F6 f; fx_F7 := fx_F7 f;
+     fx_F9 := fx_F9 f; fx_F11 := b |}.
 
 (** /repo today (b37641c): the six committed repairs are in — F1 b2286d8, F2 7c3e9fc, F3 a5ef279,
-    F4 ae6db4f, F6 06faa19, F7 19923cd; C13-F9 is open *)
-Definition repo_now : fixes := set_F9 false all_fixed.
+    F4 ae6db4f, F6 06faa19, F7 19923cd; C13-F9 and C13-F11 are open *)
+Definition repo_now : fixes := set_F11 false (set_F9 false all_fixed).
+
+(** what grpcv3.NewRequestContext takes for path and query: as pinned the two attributes as they are
+    (finding C13-F11: with the documented Envoy shape the query string stays glued to the path); with the
+    candidate repair fixes/C13-F11.diff the request target is cut at the first "?" *)
+Fixpoint has_qmark (s : string) : bool :=
+  match s with
+  | EmptyString => false
+  | String c r => Ascii.eqb c "?" || has_qmark r
+  end.
+
+Definition norm_envoy (fixed_F11 : bool) (E : ereq) : ereq :=
+  if fixed_F11 && has_qmark (e_path E) then
+    let '(p, q) := GoUrl.cut_on "?" (e_path E) in
+    {| e_method := e_method E; e_scheme := e_scheme E; e_host := e_host E; e_path := p; e_query := q;
+       e_hdrs := e_hdrs E; e_body := e_body E; e_rawbody := e_rawbody E; e_xff := e_xff E |}
+  else E.
 
 (** grpcv3.NewRequestContext + Request().  [fixed_F4 = false]: the pinned code puts the path as received
     (escaped) into URL.Path and leaves RawPath empty (finding C13-F4); [fixed_F4 = true]: the candidate
@@ -588,7 +612,7 @@ Section Oracles.
 
   Definition exec_http (L : lreq) : outcome := execute true (build_http L) (acc_http L).
   Definition exec_envoy (fx : fixes) (L : lreq) : outcome :=
-    execute (fx_F1 fx) (build_envoy (fx_F4 fx) (mk_envoy L)) (acc_envoy fx (mk_envoy L)).
+    execute (fx_F1 fx) (build_envoy (fx_F4 fx) (norm_envoy (fx_F11 fx) (mk_envoy L))) (acc_envoy fx (mk_envoy L)).
 
   (* ---------------------------------------------------------------- Finalize: the hand-over to the upstream side *)
 
